@@ -277,7 +277,7 @@ func registerExterns(e *Engine) {
 		return ex.symBytes(name, int(n))
 	}
 	x["zzsym.Str"] = func(ex *Exec, caller *frame, fn *ssa.Function, args []Value) Value {
-		return SymStr{ex.newInput(argStr(args[0]), SSeq)}
+		return SymStr{T: ex.newInput(argStr(args[0]), SSeq)}
 	}
 	x["zzsym.Assume"] = func(ex *Exec, caller *frame, fn *ssa.Function, args []Value) Value {
 		ex.assume(args[0])
@@ -290,14 +290,14 @@ func registerExterns(e *Engine) {
 		case bool:
 			if !c {
 				ex.recordViolation(label, "assertion failed", nil)
-				ex.end("ok", "assertion failed (concrete): "+label)
+				ex.end("violated", "assertion failed (concrete): "+label)
 			}
 		case SymBool:
 			ex.recordViolation(label, "assertion failed", Not(c.T))
 			// continue under the assumption that it held
 			r := ex.sol.Check(c.T)
 			if r == Unsat {
-				ex.end("ok", "assertion always fails here: "+label)
+				ex.end("violated", "assertion always fails here: "+label)
 			}
 			if r == Unknown {
 				ex.end("unknown", "solver unknown after assertion")
